@@ -8,7 +8,7 @@ import shutil
 from .. import tlc, cue
 from ..core import Check
 from .. import repo
-from .c03 import model, TIMES_Q, TIMES_T, OTHERS
+from .c03 import model, TIMES_Q, TIMES_T, OTHERS, long_cases
 
 
 def check_meaning(chk: Check, case: dict, style: int, seed: int):
@@ -92,7 +92,9 @@ def run(chk: Check):
     thorough = chk.tier == "thorough"
     chk.rule = ("TLC enumerates canonical sheets (1..n tracks, TITLE/pregap/extra INDEX variants) x one cosmetic insertion (blank line at "
                 "every position; REM/PERFORMER/FLAGS/PREGAP/CATALOG before FILE and at every position inside a track); each is rendered "
-                "in 5 keyword-case/spacing styles and parsed by the real parser; non-trivial = decorated or non-canonical style")
+                "in 5 keyword-case/spacing styles and parsed by the real parser; long sheets: the 99-track sheet bare / with 200 remarks, and "
+                "2500 copies of a 64-character remark at every allowed position of a short sheet (TLC evaluates MeaningUnchanged on them "
+                "with a deep Java stack); non-trivial = decorated or non-canonical style")
     res = chk.run_model(model(3 if thorough else 2, TIMES_Q[:4] if not thorough else TIMES_Q, {2352, 2355}, others=OTHERS),
                         label="design: MeaningUnchanged over all sheets x insertions", timeout_s=3000)
     resd = chk.run_model(model(2, TIMES_Q[:3], {2352}, with_data=True, others=OTHERS), label="design: data-track sheets", timeout_s=3000)
@@ -108,6 +110,13 @@ def run(chk: Check):
         check_image(chk, c, 1 + i % 4, chk.seed + i)
     for i, c in enumerate([c for c in res.cases if c["ins"]["pos"] == 0][:: (5 if thorough else 40)]):
         check_not_cue(chk, c, chk.seed + i)
+    # long sheets (hundreds / thousands of lines): meaning and image unchanged
+    dense, bulk = long_cases(chk, thorough)
+    pick = dense + bulk[:: (1 if thorough else max(1, len(bulk) // 8))]
+    for i, c in enumerate(pick):
+        check_meaning(chk, c, i % len(cue.STYLES), chk.seed + i)
+        check_image(chk, c, i % len(cue.STYLES), chk.seed + i)
+    chk.extra["long_sheets"] = {"dense_99_tracks": len(dense), "bulk_2500_remarks": len(bulk), "replayed": len(pick)}
     c = cd[len(cd) // 2]
     chk.sample({"decorated_text": cue.render(c["lines"], 2, 1), "meaning": c["meaning"]})
     chk.assumptions.append("keyword case and blanks are rendered by the harness (5 styles); the specification treats the line classifier as given")
